@@ -363,19 +363,19 @@ Example xml_text_example :
   = Some ("a<&>""' ]]>" +++ String (chr 13) (String (chr 10) (String (chr 9) "z"))).
 Proof. vm_compute. reflexivity. Qed.
 
-(* the monitor of the correspondence check is the theorems above *)
+(* the monitor of the correspondence check is the theorems above (with the
+   visible exclusion of "]]>" in attribute values) *)
 Theorem esccase_spec_of_model m a s :
-  (m = 1 /\ a = false) \/ (m = 2 /\ a = true) \/ m = 0 ->
+  (m = 1 /\ a = false) \/ (m = 2 /\ a = true /\ has_cdata_end s = false) \/ m = 0 ->
   esccase_spec {| xe_mode := m; xe_attr := a; xe_in := s; xe_out := etree_escape (mode_of m) s;
                   xe_back := xml_read (if a then Some """"%char else None) (etree_escape (mode_of m) s) |} = true.
 Proof.
   intro Hm. unfold esccase_spec. cbn [xe_mode xe_attr xe_in xe_back].
   destruct (valid_xml_chars s) eqn:Hv; [|reflexivity]. cbn [andb].
-  destruct Hm as [[-> ->] | [[-> ->] | ->]]; cbn [Z.eqb negb andb mode_of]; try reflexivity.
+  destruct Hm as [[-> ->] | [[-> [-> Hc]] | ->]]; cbn [Z.eqb negb andb mode_of]; try reflexivity.
   - change (xml_read None) with xml_read_text. rewrite xml_text_canonical_roundtrip by exact Hv.
     cbn. apply String.eqb_refl.
-  - destruct (has_cdata_end s) eqn:Hc; [reflexivity|]. cbn [negb].
-    change (xml_read (Some """"%char)) with xml_read_attr. rewrite xml_attr_canonical_roundtrip by assumption.
+  - change (xml_read (Some """"%char)) with xml_read_attr. rewrite xml_attr_canonical_roundtrip by assumption.
     cbn. apply String.eqb_refl.
 Qed.
 
